@@ -1,10 +1,46 @@
-(* C16 — Field-set serialisation is canonical, lossless and robust.  Statements only.
+(* C16 — Field-set serialisation is canonical, lossless and robust.  Statements only;
+   proofs in Proofs/Serialize{Base,Run,Emit,Laws}.v.
    The model (Model/Serialize.v) is at the level of JSON trees with ordered, possibly
-   repeated members; byte-level lexing, escaping and number formatting are outside it
-   (the harness converts between bytes and trees with an independent reader/writer). *)
-From Coq Require Import List ZArith String Bool.
-From SMD Require Import Model.Value Model.Order Model.PathElem Model.PathSet Model.Serialize.
+   repeated members: [to_json] is the interleaved emission with the "." marker,
+   [from_json] the parser of readIterV1 (append fast path, insert / overwrite slow paths,
+   unknown keys skipped, bad keys reported).  PARTIAL at the byte level by construction:
+   lexing, string escaping and number formatting (jsoniter, strconv) are outside the model;
+   the harness converts between bytes and trees with an independent reader and writer.
+   [jtree_wf]: keys hold well-formed path elements.  [jperm]: the members of a tree
+   permuted at every level. *)
+From Coq Require Import List ZArith String Bool Permutation.
+From SMD Require Import Base.Search Model.Value Model.Order Model.PathElem Model.PathSet Model.Serialize
+  Spec.PathsAsSets Proofs.OrderLaws Proofs.PathSetLaws Proofs.SerializeLaws.
 Import ListNotations.
+Open Scope list_scope.
+
+Theorem C16_roundtrip :
+  forall s : pset,
+         ps_ok s = true ->
+         exists s' : pset,
+           from_json (to_json s) = (s', false) /\ ps_ok s' = true /\ ps_equals s s' = true.
+Proof. exact serialize_roundtrip. Qed.
+Print Assumptions C16_roundtrip.
+
+Theorem C16_canonical :
+  forall a b : pset,
+         ps_ok a = true ->
+         ps_ok b = true -> ps_equals a b = true -> jtree_eqb (to_json a) (to_json b) = true.
+Proof. exact serialize_canonical. Qed.
+Print Assumptions C16_canonical.
+
+Theorem C16_any_tree_parses_to_a_wf_set :
+  forall t : jtree, jtree_wf t = true -> ps_ok (fst (from_json t)) = true.
+Proof. exact parse_any_tree_ok. Qed.
+Print Assumptions C16_any_tree_parses_to_a_wf_set.
+
+Theorem C16_member_order_irrelevant :
+  forall (s : pset) (t : jtree),
+         ps_ok s = true ->
+         jperm (to_json s) t ->
+         exists s' : pset, from_json t = (s', false) /\ ps_ok s' = true /\ ps_equals s s' = true.
+Proof. exact parse_order_irrelevant. Qed.
+Print Assumptions C16_member_order_irrelevant.
 
 (* the empty set serialises to the empty object, which parses back to the empty set *)
 Theorem C16_empty_roundtrip :
